@@ -10,7 +10,7 @@ use std::path::Path;
 use std::process::{Command, Stdio};
 use std::time::{Duration, Instant};
 
-use engine::{Ctx, Report, ReplayFile, Tier, VERIF_ROOT};
+use engine::{Ctx, Report, ReplayFile, Tier};
 
 /// Exit code of a worker that ran out of memory (address-space limit or real
 /// exhaustion): an infrastructure problem, never a violation.
@@ -204,7 +204,7 @@ fn check(id: &str, tier: Tier, seed: u64) -> i32 {
     // Testing aid: VERIF_ONLY_FUZZ=1 skips the generated-case shards of a thorough run.
     let spawn_shards = if std::env::var("VERIF_ONLY_FUZZ").is_ok() && tier == Tier::Thorough { 0 } else { nshards };
     let exe = std::env::current_exe().expect("own path");
-    let tmp = Path::new(VERIF_ROOT).join("harness/target/vp-tmp");
+    let tmp = engine::verif_root().join("harness/target/vp-tmp");
     let _ = std::fs::create_dir_all(&tmp);
     let pid = std::process::id();
 
@@ -372,7 +372,7 @@ fn check(id: &str, tier: Tier, seed: u64) -> i32 {
         "failures": merged.found,
         "infrastructure_errors": infra,
     });
-    let dir = Path::new(VERIF_ROOT).join("evidence");
+    let dir = engine::verif_root().join("evidence");
     let _ = std::fs::create_dir_all(&dir);
     let path = dir.join(format!("{id}.json"));
     if let Err(e) = std::fs::write(&path, serde_json::to_string_pretty(&evidence).unwrap()) {
@@ -407,7 +407,7 @@ fn fuzz_campaigns(id: &str, seed: u64, merged: &mut Report, infra: &mut Vec<Stri
     if targets.is_empty() {
         return;
     }
-    let fuzz_dir = Path::new(VERIF_ROOT).join("fuzz");
+    let fuzz_dir = engine::verif_root().join("fuzz");
     let build = Command::new("cargo")
         .args(["+nightly", "fuzz", "build", "--fuzz-dir"])
         .arg(&fuzz_dir)
